@@ -32,12 +32,14 @@ CONSTANTS
     BodyFieldOnly,  \* namespace of a POST body is whatever its "index_name" field says
     PathSplit,      \* namespace of a path is the 4th "/"-separated piece of the decoded path
     KvOpen,         \* keys under the reserved prefix _sys_auth:: are ordinary KV keys
+    ExactKeys,      \* the middleware looks the index fields of a body up by their exact lower-case key
     Unjournaled,    \* signing key and revocation markers are not written to the journal
+    VerifyCache,    \* a token that verified once is served from a cache that only re-checks the revocation list
     Tids,           \* token identities of the restart machine
     MaxOps          \* bound on the length of restart histories
 
-VARIABLES req, mem, log, snap, issued, everRev, hist, nkeys
-vars == <<req, mem, log, snap, issued, everRev, hist, nkeys>>
+VARIABLES req, mem, log, snap, issued, everRev, hist, nkeys, short, expired, seen
+vars == <<req, mem, log, snap, issued, everRev, hist, nkeys, short, expired, seen>>
 
 (***************************************************************************)
 (* Tokens                                                                  *)
@@ -135,20 +137,31 @@ NamesOf(sh) ==
     ELSE IF sh.class \in IndexScoped THEN {"benign", "readword", "slash"}
     ELSE {"benign"}
 TargetsOf(sh) == IF sh.class \in IndexScoped THEN {"own", "other"} ELSE {"-"}
-\* body shapes: plain; decoy = an extra field index_name naming the token's own namespace on a
-\* route whose handler does not take its index from that field; dup = the field index_name
-\* twice (own first, the real target last)
+\* body shapes.  c.target is ALWAYS the index the HANDLER will act on (encoding/json fills a struct
+\* field from every key that matches its tag case-insensitively, the last one wins); the shape
+\* says what else the body carries:
+\*   plain      the index field(s) once, canonical spelling
+\*   decoy      an extra field index_name naming the token's own namespace on a route whose handler
+\*              does not take its index from that field
+\*   dup        the canonical field twice: own first, the real target last
+\*   caseAfter  canonical field(s) = own, then a case variant (Index_Name, INDEX_NAME, index_Name;
+\*              Source_Index, ...) carrying the real target AFTER it
+\*   caseBefore a case variant carrying own BEFORE the canonical field with the real target
+\*   caseOnly   only the case variant, carrying the real target
+CaseBodies == {"caseAfter", "caseBefore", "caseOnly"}
 BodiesOf(sh) ==
     IF sh.method # "POST" THEN {"plain"}
-    ELSE IF sh.src = "body" THEN {"plain", "dup"}
-    ELSE IF sh.src \in {"bodyOther", "none", "query"} THEN {"plain", "decoy"}
+    ELSE IF sh.src = "body" THEN {"plain", "dup"} \cup CaseBodies
+    ELSE IF sh.src = "bodyOther" THEN {"plain", "decoy"} \cup CaseBodies
+    ELSE IF sh.src \in {"none", "query"} THEN {"plain", "decoy"}
     ELSE {"plain"}
 
 AllNames  == {"benign", "readword", "slash", "encoded", "reserved"}
-AllBodies == {"plain", "decoy", "dup"}
+AllBodies == {"plain", "decoy", "dup"} \cup CaseBodies
 Applicable(c) == /\ c.target \in TargetsOf(c.shape)
                  /\ c.name \in NamesOf(c.shape)
                  /\ c.body \in BodiesOf(c.shape)
+                 /\ c.body \in CaseBodies => c.name = "benign"   \* spelling and resource name are independent
 Cases == { c \in [tok : Tokens, shape : Shapes, target : {"own", "other", "-"}, name : AllNames, body : AllBodies] :
              Applicable(c) }
 
@@ -201,8 +214,13 @@ AsBuiltRole(c) ==
 ReqRole(c) == IF SuffixRole THEN AsBuiltRole(c)
               ELSE IF KvOpen THEN MinRole(c.shape.class) ELSE EffMin(c)
 
+\* the reference monitor sees exactly the index the handler will act on (c.target); with ExactKeys
+\* the middleware reads a map by the lower-case key: it sees "own" where the canonical key holds the
+\* decoy and nothing at all where only a case variant is present
 SeenNs(c) ==
     IF c.shape.src = "path" THEN (IF PathSplit /\ c.name = "slash" THEN "own" ELSE c.target)
+    ELSE IF ExactKeys /\ c.shape.src \in {"body", "bodyOther"} /\ c.body = "caseAfter" THEN "own"
+    ELSE IF ExactKeys /\ c.shape.src \in {"body", "bodyOther"} /\ c.body = "caseOnly" THEN "*"
     ELSE IF c.shape.src = "body" THEN c.target
     ELSE IF BodyFieldOnly /\ c.shape.method = "POST" /\ c.body = "decoy" THEN "own"
     ELSE "*"
@@ -252,6 +270,9 @@ HistStart ==
     /\ everRev = {}
     /\ hist = <<>>
     /\ nkeys = 1
+    /\ short = {}
+    /\ expired = {}
+    /\ seen = {}
 
 InitHist  == req = NoReq /\ HistStart
 InitCases == req \in Cases /\ HistStart
@@ -259,25 +280,38 @@ InitCases == req \in Cases /\ HistStart
 Issue(t) == /\ issued[t] = 0
             /\ issued' = [issued EXCEPT ![t] = mem.key]
             /\ hist' = Append(hist, Op("Issue", t))
-            /\ UNCHANGED <<req, mem, log, snap, everRev, nkeys>>
+            /\ UNCHANGED <<req, mem, log, snap, everRev, nkeys, short, expired>>
+
+\* a token with a lifetime of a few seconds
+IssueShort(t) == /\ issued[t] = 0
+                 /\ issued' = [issued EXCEPT ![t] = mem.key]
+                 /\ short' = short \cup {t}
+                 /\ hist' = Append(hist, Op("IssueShort", t))
+                 /\ UNCHANGED <<req, mem, log, snap, everRev, nkeys, expired>>
+
+\* the clock passes the expiry of every short-lived token issued so far
+Expire == /\ short \ expired # {}
+          /\ expired' = short
+          /\ hist' = Append(hist, Op("Expire", "-"))
+          /\ UNCHANGED <<req, mem, log, snap, issued, everRev, nkeys, short>>
 
 Revoke(t) == /\ issued[t] # 0 /\ t \notin everRev
              /\ mem' = [mem EXCEPT !.rev = @ \cup {t}]
              /\ log' = IF Unjournaled THEN log ELSE [log EXCEPT !.rev = @ \cup {t}]
              /\ everRev' = everRev \cup {t}
              /\ hist' = Append(hist, Op("Revoke", t))
-             /\ UNCHANGED <<req, snap, issued, nkeys>>
+             /\ UNCHANGED <<req, snap, issued, nkeys, short, expired>>
 
 \* snapshot: the whole KV store goes to the snapshot file, the journal is truncated
 Save == /\ snap' = mem
         /\ log' = Empty
         /\ hist' = Append(hist, Op("Save", "-"))
-        /\ UNCHANGED <<req, mem, issued, everRev, nkeys>>
+        /\ UNCHANGED <<req, mem, issued, everRev, nkeys, short, expired>>
 
 \* log compaction: the journal is rewritten from memory, the snapshot file stays
 Rewrite == /\ log' = mem
            /\ hist' = Append(hist, Op("Rewrite", "-"))
-           /\ UNCHANGED <<req, mem, snap, issued, everRev, nkeys>>
+           /\ UNCHANGED <<req, mem, snap, issued, everRev, nkeys, short, expired>>
 
 \* clean stop + start: snapshot first, then the journal on top of it; a missing key is generated
 Restart ==
@@ -290,18 +324,28 @@ Restart ==
                /\ nkeys' = nkeys + 1
                /\ log' = IF Unjournaled THEN log ELSE [log EXCEPT !.key = nkeys + 1]
        /\ hist' = Append(hist, Op("Restart", "-"))
-       /\ UNCHANGED <<req, snap, issued, everRev>>
+       /\ UNCHANGED <<req, snap, issued, everRev, short, expired>>
 
-NextHist == \/ \E t \in Tids : Issue(t) \/ Revoke(t)
-            \/ Save \/ Rewrite \/ Restart
+\* every token is presented to the server after every step (that is what the replayer does);
+\* seen = the tokens that verified in the current process (what a verification cache would hold)
+FullyValid(t, i, m, x) == i[t] # 0 /\ i[t] = m.key /\ t \notin m.rev /\ t \notin x
+Step == \/ \E t \in Tids : Issue(t) \/ IssueShort(t) \/ Revoke(t)
+        \/ Save \/ Rewrite \/ Restart \/ Expire
+NextHist == /\ Step
+            /\ seen' = (IF hist'[Len(hist')].op = "Restart" THEN {} ELSE seen)
+                        \cup {t \in Tids : FullyValid(t, issued', mem', expired')}
 
 \* what the server answers / what the property demands
 Verdict(t)  == IF issued[t] = 0 THEN "unissued"
-               ELSE IF issued[t] = mem.key /\ t \notin mem.rev THEN "serve" ELSE "deny"
-Expected(t) == IF issued[t] = 0 THEN "unissued" ELSE IF t \in everRev THEN "deny" ELSE "serve"
+               ELSE IF FullyValid(t, issued, mem, expired) THEN "serve"
+               ELSE IF VerifyCache /\ t \in seen /\ t \notin mem.rev THEN "serve"
+               ELSE "deny"
+Expected(t) == IF issued[t] = 0 THEN "unissued"
+               ELSE IF t \in everRev \/ t \in expired THEN "deny" ELSE "serve"
 
 Inv_RevokedStaysRevoked == \A t \in everRev : Verdict(t) = "deny"
-Inv_IssuedKeepsWorking  == \A t \in Tids : issued[t] # 0 /\ t \notin everRev => Verdict(t) = "serve"
+Inv_ExpiredStaysExpired == \A t \in expired : Verdict(t) = "deny"
+Inv_IssuedKeepsWorking  == \A t \in Tids : issued[t] # 0 /\ t \notin everRev /\ t \notin expired => Verdict(t) = "serve"
 Inv_KeyStable           == mem.key = 1
 
 BoundHist == Len(hist) <= MaxOps
